@@ -86,6 +86,7 @@ func newIndex(opts options) (idx *index, err error) {
 	if err != nil {
 		return nil, errors.Wrap(err, "open file failed")
 	}
+	crashPoint("index.new.open")
 	fi, err := idx.file.Stat()
 	if err != nil {
 		return nil, errors.Wrap(err, "stat file failed")
@@ -95,6 +96,7 @@ func newIndex(opts options) (idx *index, err error) {
 		if err := idx.file.Truncate(roundDown(opts.bytes, entryWidth)); err != nil {
 			return nil, err
 		}
+		crashPoint("index.new.prealloc")
 	}
 	// Get updated stats after resize.
 	fi, err = idx.file.Stat()
@@ -142,6 +144,7 @@ func (idx *index) writeEntries(entries []*entry) (err error) {
 		return errors.Wrap(err, "index write failed")
 	}
 	idx.position += entryWidth * int64(len(entries))
+	crashPoint("index.write")
 	return nil
 }
 
@@ -245,6 +248,7 @@ func (idx *index) Close() error {
 	if err := idx.shrink(); err != nil {
 		return err
 	}
+	crashPoint("index.close.shrink")
 	if err := idx.file.Close(); err != nil {
 		return err
 	}
